@@ -217,6 +217,7 @@ def jobs(tier):
     from .. import scenlib as S
     from ._common import mk
     out += mk('C16', 'three_bus_stop', S.three_bus_stop(), witnesses=('stop returned',))
+    out += mk('C16', 'fw_stop_source_with_timeout', S.fw_stop_source_with_timeout(), witnesses=('stop returned',))
     if tier == 'thorough':
         out.append(Job('C16', 's1.stop', t_stop, dict(mode='time', timeout='1/2', backlog=2, clear=True)))
         out.append(Job('C16', 's1.stop', t_stop, dict(mode='step', timeout='1/2', backlog=1, kmax=80), max_paths=6000))
